@@ -7,7 +7,7 @@ import registry
 def repo_commits():
     out = subprocess.run(["git", "-C", "/repo", "log", "--format=%h %s"], stdout=subprocess.PIPE, text=True).stdout
     # the FIBEX event-level hooks (0fb0af1) were reverted again (2a3d6d1): C12 could not be decided, see DESIGN.md
-    return [l.split()[0] for l in out.splitlines() if l.split(" ", 1)[1].startswith("verif hooks: add feature")]
+    return [l.split()[0] for l in out.splitlines() if l.split(" ", 1)[1].startswith("verif hooks:") and l.split()[0] != "0fb0af1"]
 
 checks = []
 for pid in sorted(registry.PROPS):
